@@ -19,7 +19,7 @@ from .. import build, core, tsan
 LEVEL = "exploration"
 NO_PROGRESS_S = 12.0
 IN_STOP_S = 25.0
-EXIT_PATHS = ("P3", "P4", "P5")
+EXIT_PATHS = ("P3", "P4", "P5", "P3C", "P3T", "P3O")
 
 
 def scen(path, backlog=0, delay=0, racers=0, post=0, cfg="fluent", cycles=1, noise="", pause=None, budget=None, flavour="plain"):
@@ -52,6 +52,10 @@ def quick_scenarios(rnd):
     for cyc, backlog, delay, racers in ((20, 10, 0, 2), (10, 200, 50, 4), (6, 50, 2000, 1), (40, 0, 0, 3)):
         S.append(scen("P8", backlog, delay, racers, 2, cycles=cyc, noise="%d:150:150:50:oth" % rnd.randint(1, 9999)))
         S.append(scen("P2", backlog, delay, racers, 2, cycles=cyc))
+    # return without exec() after earlier move/reset cycles, with a second application object, with a sibling handler stopped earlier
+    for path in ("P3C", "P3T", "P3O"):
+        S.append(scen(path, 200, 50, 0, 0, cycles=2, cfg="fluent"))
+        S.append(scen(path, 50, 500, 2 if path == "P3C" else 0, 0, cycles=1, cfg=rnd.choice(["fluent", "ini"])))
     # two threads stop the same logger at the same moment
     S.append(scen("P9", 200, 50, 1, 2, cycles=5))
     S.append(scen("P9", 0, 0, 2, 2, cycles=30, noise="%d:200:100:100:oth.reset" % rnd.randint(1, 9999)))
@@ -72,13 +76,13 @@ def quick_scenarios(rnd):
 
 
 def random_scenario(rnd):
-    path = rnd.choice(["P1", "P2", "P2", "P3", "P4", "P5", "P6", "P6L", "P8", "P8", "P9"])
+    path = rnd.choice(["P1", "P2", "P2", "P3", "P4", "P5", "P6", "P6L", "P8", "P8", "P9", "P3C", "P3T", "P3O"])
     delay = rnd.choice([0, 0, 20, 50, 500, 2000])
     backlog = rnd.choice([0, 1, 10, 100, 1000, 20000])
     while backlog * max(delay, 1) > 6000000:
         backlog //= 10
     racers = rnd.choice([0, 1, 2, 4])
-    cycles = rnd.choice([1, 2, 5, 20, 60]) if path in ("P2", "P8", "P6", "P9") else 1
+    cycles = rnd.choice([1, 2, 5, 20, 60]) if path in ("P2", "P8", "P6", "P9", "P3C") else 1
     while cycles * backlog * max(delay, 1) > 8000000 and cycles > 1:
         cycles //= 2
     noise = rnd.choice(["", "", "%d:200:100:100:oth.reset" % rnd.randint(1, 99999), "%d:150:150:50:oth" % rnd.randint(1, 99999),
@@ -325,7 +329,7 @@ def run(ctx):
         "evaluations": evals,
         "distinct_nontrivial": len(distinct),
         "rule": "one child process per scenario (shutdown path P1 aboutToQuit, P2 explicit reset, P3 return without exec, P4 exit(), P5 leaked "
-                "application, P6/P6L non-singleton destruction, P8 move/reset cycles, P9 two concurrent stops) x backlog x sink delay x racing producers x configuration "
+                "application, P6/P6L non-singleton destruction, P8 move/reset cycles, P9 two concurrent stops, P3C/P3T/P3O return without exec after earlier cycles / with a second application / with a sibling handler stopped earlier) x backlog x sink delay x racing producers x configuration "
                 "front-end x hook noise x {plain, tsan, san}; non-trivial = at least one message accepted; distinct by the scenario tuple",
         "samples": samples,
         "scenarios_by_path_and_flavour": bypath,
